@@ -1063,9 +1063,48 @@ def check_plan_with_llm(raw, shape):
     return out, "accepted"
 
 
+def check_assembled(world, text, maxops, slice_cap):
+    """The per-slice op cap reaches the planner through the REAL bundle assembly (ctx.slice_budgets -> make_plan_bundle ->
+    deliberate / rag_once), not only through a hand-built bundle."""
+    from mc import world as W
+    from clematis.engine.orchestrator import core as orch_core
+    from clematis.engine.stages import t1 as t1m
+    from clematis.engine.stages.t2 import core as t2c
+    W.reset_globals()
+    cfg = W.make_cfg({"t3": {"max_ops_per_turn": maxops}, "t1": {"cache": {"enabled": False}}, "t2": {"cache": {"enabled": False}}})
+    state = W.make_world(world)
+    extra = {} if slice_cap is None else {"slice_budgets": {"t3_ops": slice_cap}}
+    ctx = W.make_ctx(cfg, "A", 1, **extra)
+    t1 = t1m.t1_propagate(ctx, state, text)
+    t2 = t2c.t2_semantic(ctx, state, text, t1)
+    bundle = orch_core.make_plan_bundle(ctx, state, t1, t2)
+    cap = maxops if slice_cap is None else min(maxops, slice_cap)
+    out = []
+    plan = t3_policy.deliberate(bundle)
+    n = len(list(getattr(plan, "ops", []) or []))
+    if n > cap:
+        out.append(("assembled:ops-exceed-slice-cap", "make_plan_bundle + deliberate: %d ops with max_ops_per_turn=%d and slice t3_ops=%r "
+                    "(world %s, text %r)" % (n, maxops, slice_cap, world, text)))
+    plan2, _m = t3_legacy.rag_once(bundle, plan, lambda payload: {"retrieved": [], "metrics": {}}, already_used=False)
+    n2 = len(list(getattr(plan2, "ops", []) or []))
+    if n2 > cap:
+        out.append(("assembled:ops-exceed-slice-cap:post-rag", "make_plan_bundle + rag_once: %d ops with max_ops_per_turn=%d and slice t3_ops=%r "
+                    "(world %s, text %r)" % (n2, maxops, slice_cap, world, text)))
+    return out, (n, n2)
+
+
 def _misc_worker(chunk, st: Stats):
     for item in chunk:
         kind = item[0]
+        if kind == "assembled":
+            _, world, text, maxops, slice_cap = item
+            res, oc = check_assembled(world, text, maxops, slice_cap)
+            st.add("transitions", 2); st.add("validated", 2); st.add("states")
+            st.add("assembled_bundles")
+            st.distinct("outcomes", ("assembled", oc))
+            for sig, what in res:
+                viol(st, sig, what, {"kind": "assembled", "world": world, "text": text, "maxops": maxops, "slice": slice_cap})
+            continue
         if kind == "nonstr":
             v = NON_STRINGS[item[1]]
             res, ok = check_string(v)
@@ -1433,6 +1472,8 @@ def run(run: Run) -> None:
     run.pmap(_san_worker, items, chunks=min(len(items), 16 * 24 - 1))
     run.pmap(_gap_worker, list(range(len(FULL))))
     misc = [("nonstr", i) for i in range(len(NON_STRINGS))]
+    misc += [("assembled", w_, tx, mo, sl) for w_ in ("W0", "W1", "W2") for tx in ("apple", "pear fig", "zzz")
+             for mo in (1, 3, 8) for sl in (None, 0, 1, 2)]
     misc += [("sp", o, r, False) for o in range(len(SP_OPS)) for r in range(len(SP_REF))] + [("sp", 0, 0, True)]
     llm_raws = [("x", k) for k in range(len(LLM_RAW_EXTRA))] + [("t", i) for i in range(len(FULL))] + \
                [("t", i, j) for i in range(len(FULL)) for j in range(len(FULL))]
@@ -1475,6 +1516,8 @@ def run(run: Run) -> None:
 def replay(case):
     import tempfile
     k = case.get("kind")
+    if k == "assembled":
+        return check_assembled(case["world"], case["text"], case["maxops"], case["slice"])[0]
     if k == "bundle":
         p = dict(case["params"])
         res, _, _ = check_bundle(p)
